@@ -131,6 +131,32 @@ fn emit_routes(out: &mut Out, inp: &Input, mask: &Option<Vec<bool>>) {
         } else {
             s.push_str(" VIAF -");
         }
+        // `build_voronoi_cells` twice into the SAME caller-kept buffers: the second call must append the same faces again and
+        // leave the faces already stored untouched (bitwise), and return the same cells
+        {
+            let tok = |f: &meshless_voronoi::VoronoiFace| {
+                format!("{}:{}:{}:{}:{}:{}", f.left(), opt_usize(f.right()), crate::proto::opt_v3(f.shift()).replace(' ', ","), fx(f.area()), v3(f.centroid()).replace(' ', ","), v3(f.normal()).replace(' ', ","))
+            };
+            let celltok = |c: &meshless_voronoi::VoronoiCell| format!("{}:{}:{}", fx(c.volume()), v3(c.centroid()).replace(' ', ","), fx(c.safety_radius()));
+            let mut bufs: Vec<Vec<meshless_voronoi::VoronoiFace>> = vec![vec![]; inp.gens.len()];
+            let c1: Vec<String> = vi.build_voronoi_cells(&mut bufs).iter().map(celltok).collect();
+            let first: Vec<Vec<String>> = bufs.iter().map(|b| b.iter().map(tok).collect()).collect();
+            let c2: Vec<String> = vi.build_voronoi_cells(&mut bufs).iter().map(celltok).collect();
+            let mut bad = String::from("-");
+            if c1 != c2 {
+                bad = "cells-differ".to_string();
+            }
+            for (i, b) in bufs.iter().enumerate() {
+                let second: Vec<String> = b.iter().map(tok).collect();
+                let mut expect = first[i].clone();
+                expect.extend(first[i].iter().cloned());
+                if second != expect && bad == "-" {
+                    let k = (0..second.len().min(expect.len())).find(|&k| second[k] != expect[k]).unwrap_or(second.len().min(expect.len()));
+                    bad = format!("cell{}:entry{}:{}:expected:{}", i, k, second.get(k).cloned().unwrap_or_default(), expect.get(k).cloned().unwrap_or_default());
+                }
+            }
+            s.push_str(&format!(" BVC {}", bad));
+        }
         s
     });
     let res = match res {
@@ -198,6 +224,11 @@ pub fn run_partial(out: &mut Out, rng: &mut Rng, thorough: bool) {
                             s.push_str(&format!(" MASK {} {}", m.iter().map(|&b| if b { '1' } else { '0' }).collect::<String>(), crate::ser::voronoi(&p)));
                             let vi = VoronoiIntegrator::build(&inp.gens, Some(m), inp.anchor, inp.width, inp.dimensionality(), inp.periodic);
                             s.push_str(&format!(" GCA {}", gca(&vi, inp.gens.len())));
+                            // the same mask through the integrator with stored faces (3D): a further route to a partial tessellation
+                            if inp.dim == 3 {
+                                let pwf = Voronoi::from(&vi.with_faces());
+                                s.push_str(&format!(" PWF {}", crate::ser::voronoi(&pwf)));
+                            }
                         }
                         s
                     });
